@@ -37,6 +37,7 @@ type zzItem struct {
 	addr     []byte
 	data     []byte
 	gasUsed  uint64
+	bhash    []byte // the block hash the item names (logs)
 }
 
 func zzErrMember() Error {
@@ -309,7 +310,7 @@ func zzDo(c *Client, ctx context.Context, url string, dest, req any) error {
 				x.BlockHash = zzvrf.Bytes("log.blockHash", 32, 32)
 			}
 			x.TxHash = zzvrf.Bytes("log.transactionHash", 32, 32)
-			zzGhost = append(zzGhost, zzItem{kind: 'l', blockNum: uint64(x.BlockNum), txIdx: uint64(x.TxIdx), logIdx: uint64(x.Log.Idx), addr: x.Log.Address, data: x.Log.Data})
+			zzGhost = append(zzGhost, zzItem{kind: 'l', blockNum: uint64(x.BlockNum), txIdx: uint64(x.TxIdx), logIdx: uint64(x.Log.Idx), addr: x.Log.Address, data: x.Log.Data, bhash: x.BlockHash})
 		}
 	case *traceBlockResp:
 		d.Error = zzErrMember()
